@@ -32,6 +32,7 @@ def pivot():
     ], note="`disabled` combined with other items in one attribute (before / after them), trailing comma, split attributes"))
     S.append(EnumSpec("SameName", [U("Kb"), U("KB"), U("Warn"), U("Warning", to_string="warn")], serialize_all="lowercase",
                       note="two variants whose canonical names coincide (VariantNames only describes, it must still list every declared variant)"))
+    S.append(EnumSpec("Big257", [U("V%d" % i) for i in range(257)], serialize_all="snake_case", note="257 variants (8-bit boundary)"))
     S.append(EnumSpec("Eight", [U("V%d" % i) for i in range(8)], serialize_all="kebab-case", note="8 variants"))
     return S
 
